@@ -1573,6 +1573,13 @@ func (r *Raft) InstallSnapshot(
 		r.logger.Fatalf("failed to discard log entries: error = %v", err)
 	}
 
+	// The whole log was discarded. A configuration that was in force without being committed
+	// (this node accepted a membership change while it was leader) has lost its entry as well:
+	// fall back to the committed configuration first, as AppendEntries does on truncation.
+	if r.committedConfiguration != nil && r.configuration.Index > r.committedConfiguration.Index {
+		r.nextConfiguration(r.committedConfiguration)
+	}
+
 	// Update the configuration.
 	r.applyConfiguration(request.Configuration)
 
